@@ -502,7 +502,8 @@ def jobs(tier):
                        {"det": "ADWINAccuracy", "N": 7 if q else 8,
                         "cfg": {"max_buckets": mb, "new_sample_thresh": 1, "window_size_thresh": 0,
                                 "subwindow_size_thresh": 1}},
-                       expect=("after-drift", "state-drift")))
+                       expect=("after-drift", "state-drift"),
+                       opts={} if q or mb == 1 else {"wall_budget_s": 2400}))  # N=8, max_buckets=2: about 200k paths
     for burn in (0, 1, 2):
         for sub in (1, 2):
             n = 3 if q else 4
